@@ -51,6 +51,28 @@ def wrap_scenario(r, wraps, main):
     return dict(cfg=cfg, insts=[], draws=[], events=events, end=t + 10, rev=False, fuel=400000)
 
 
+def reboot_interleaved(r):
+    """Sends to peers 1 and 2 and the multicast group while those peers reveal reboots (empty SD messages with reboot
+    evidence, unicast and multicast): what we RECEIVE must never disturb the ids we SEND."""
+    cfg = (0, 0, 0, 0, 0, 0, 0, 3, 3, 5, None, 0)
+    e = conv.s_entry(scen.SERVICES[0].create_find_entry(3))
+    peers = {1: scen.Peer(1), 2: scen.Peer(2)}
+    events = []
+    t = 0
+    for k in range(r.randint(6, 40)):
+        t += r.choice([0, 1, 1])
+        c = r.random()
+        if c < 0.6:
+            events.append((t, (1, [20, [] if r.random() < 0.1 else [e], r.choice([None, [1], [1], [2]])])))
+        else:
+            a = r.choice([1, 2])
+            if r.random() < 0.5:
+                peers[a].reboot()
+            mc = r.random() < 0.3
+            events.append((t, (0, a, mc, peers[a].datagram([], mc))))
+    return dict(cfg=cfg, insts=[], draws=[], events=events, end=t + 10, rev=False, fuel=200000)
+
+
 def notify_ids(n_per_dest, dests=2):
     """SimpleEventgroup._notify_single: per-destination ids of notification traffic (real service object)."""
     import asyncio
@@ -101,11 +123,11 @@ def run(ctx):
     r = ctx.rng
     quick = ctx.tier == "quick"
     ctx.rule = ("interleavings of send_sd to the multicast group and 4 unicast peers with ~10% empty sends, including one run that walks one destination across the "
-                "0xFFFF wrap-around and then contacts new destinations for the first time (quick: one wrap = 65535+ sends; thorough: the complete 2 x 65535 cycle, multicast and unicast) by issuing the sends, decoding every "
+                "received SD messages that reveal peer reboots interleaved with the sends (what is received must not disturb the ids sent), the 0xFFFF wrap-around and then contacts new destinations for the first time (quick: one wrap = 65535+ sends; thorough: the complete 2 x 65535 cycle, multicast and unicast) by issuing the sends, decoding every "
                 "transmitted datagram; the same for SimpleEventgroup._notify_single with two subscribers across a wrap; assign_outgoing compared with the model over long "
                 "destination sequences; implementation trace judged by check_C08; non-trivial = distinct scenario")
     ctx.assumptions = ["calls from the loop thread only (the outgoing_lock is not modelled)", "entry lists are encodable (an encoding failure after the id was taken consumes the id: observation O1)"]
-    scs = [send_scenario(r, r.randint(1, 60)) for _ in range(60 if quick else 2000)]
+    scs = [send_scenario(r, r.randint(1, 60)) if k % 3 else reboot_interleaved(r) for k in range(60 if quick else 2000)]
     scs.append(wrap_scenario(r, 1 if quick else 2, [1]))
     if not quick:
         scs.append(wrap_scenario(r, 2, None))
